@@ -107,13 +107,14 @@ class Run:
 
 
 def explore(make, watch, bound, check, journal=None, max_schedules=None, shard=None,
-            collect=False):
+            collect=False, stack0=None, root_only=False):
     """make() -> (bodies, ctx); check(run, ctx) -> (outcome label, violation or None).
     Returns stats; stops at the first violation."""
     st = {'schedules': 0, 'maxpoints': 0, 'outcomes': {}, 'violation': None,
           'capped': False, 'violations': []}
-    stack = [[]]
+    stack = [list(p) for p in stack0] if stack0 is not None else [[]]
     seen_kinds = set()
+    st['children'] = []
     while stack:
         prefix = stack.pop()
         if journal is not None:
@@ -148,7 +149,10 @@ def explore(make, watch, bound, check, journal=None, max_schedules=None, shard=N
                 cost = pre + (1 if cur_en else 0)
                 if cost <= bound:
                     for alt in range(1, nen):
-                        stack.append(x.choices[:i] + [alt])
+                        if root_only:
+                            st['children'].append(x.choices[:i] + [alt])
+                        else:
+                            stack.append(x.choices[:i] + [alt])
             if cur_en and c != 0:
                 pre += 1
         if max_schedules and st['schedules'] >= max_schedules:
